@@ -14,10 +14,8 @@ MANIFEST = {
             "height never decreases; for every h <= finalized the block served at h never changes; the stored height becomes "
             "max(stored, maxHeightPrecommited) in the step that appends the block and changes in no other step; the finalize events "
             "published are exactly the raises (old, new) in order; a deletion always removes the tip and only above the finalized "
-            "height. Sync (fast, full, failed with restore) and tie-break are sequences of these operations: a translator lists every "
-            "call site in pkg/blockchain and pkg/consensus that can reach the database or a batch, and Coq checks that list is exactly "
-            "the expected one (durable writers = Chain.AddBlock, Chain.RemoveBlock, DataAccess.ClearTempBlocks; every deleteBlock "
-            "caller passes LastBlock()). Correspondence: random histories with competing forks, invalid blocks, delete requests down "
+            "height. Sync (fast, full, failed with restore) and tie-break are sequences of these operations: a go/ast abstract interpreter (helpers inlined, parameters bound to the caller's arguments) summarises, for every exported step, the batches created, the objects staged into, the durable commits and the direct database writes, and Coq checks these against the expected values (one batch, one commit, no direct write; three database.Write call sites; every deleteBlock argument from LastBlock()) " 
+            "Correspondence: random histories with competing forks, invalid blocks, delete requests down "
             "to and below the finalized height, failed-sync restores from the temp table, restarts (close+reopen+PrepareCache); after "
             "every step finalized height, ID per height and events are compared with the model and with the four invariants.",
     "note": "Trusted: Coq kernel + vm_compute, model fidelity as sampled, the syntactic mutator listing (receiver named *database), Go "
